@@ -108,7 +108,7 @@ PROPS = {
         "assumptions": VM_ASSUME + ["the specification side of the comparison is the interpreter model with every recorded deviation switched off (Quirks.spec); gas, GAS/GASLIMIT-dependent programs and out-of-gas runs are not compared (gas accounting may differ)"],
     },
     "C17": {
-        "lean": ["Shentu.Props.C17", "Shentu.Props.C18vm", "Shentu.Props.C10"],
+        "lean": ["Shentu.Props.C17", "Shentu.Props.C17g", "Shentu.Props.C18vm", "Shentu.Props.C10"],
         "drivers": ["vmdriver", "chaindriver"],
         "engines": VM_ENGINES + [VM_ZEROLEN, chain("bankvm", 64, 640, ops=100), WASM],
         "trusted": VM_TRUST + ["the final size of every frame's memory is read by the harness from the interpreter's own memory objects (the provider vm.NewCVM installs by default, obtained by reflection and handed on unchanged); programs of the profile 'zerolen' also return their own MSIZE and the two readings are compared",
